@@ -38,8 +38,22 @@ def module_ast(module):
     return _module_asts[name]
 
 
+_function_ast_cache = {}  # code object -> (node, module): the lookup below walks the whole module ast
+
+
 def function_ast(fn):
     """-> (FunctionDef node, live module) for a live function object."""
+    key = getattr(fn, "__code__", None)
+    hit = _function_ast_cache.get(key) if key is not None else None
+    if hit is not None and (fn.__module__ + ":" + fn.__qualname__) in EXTRACTED:
+        return hit
+    r = _function_ast_uncached(fn)
+    if key is not None:
+        _function_ast_cache[key] = r
+    return r
+
+
+def _function_ast_uncached(fn):
     fn = getattr(fn, "__wrapped__", fn) if False else fn
     module = sys.modules[fn.__module__]
     tree, src, path = module_ast(module)
